@@ -139,6 +139,17 @@ pub struct WireCase {
     pub twin_by_name: bool,
 }
 
+/// Makes a node id different from what it was without exceeding the 65,535-byte limit of a
+/// string on the wire (a maximum-length id gets its last character replaced, not one appended).
+fn differ_by_one_char(node_id: &mut String) {
+    if node_id.len() >= 65_535 {
+        let last = node_id.pop();
+        node_id.push(if last == Some('x') { 'y' } else { 'x' });
+    } else {
+        node_id.push('x');
+    }
+}
+
 pub fn model_of(case: &WireCase) -> WMsg {
     let mut uniq = 0usize;
     let mut digest: Vec<WNodeDigest> = Vec::new();
@@ -170,7 +181,7 @@ pub fn model_of(case: &WireCase) -> WMsg {
         t.ip = first.ip.clone();
         t.port = first.port;
         if t.node_id == first.node_id {
-            t.node_id.push('x');
+            differ_by_one_char(&mut t.node_id);
         }
     }
     let mut deltas: Vec<WNodeDelta> = Vec::new();
@@ -203,7 +214,7 @@ pub fn model_of(case: &WireCase) -> WMsg {
         t.ip = first.ip.clone();
         t.port = first.port;
         if t.node_id == first.node_id {
-            t.node_id.push('x');
+            differ_by_one_char(&mut t.node_id);
         }
     }
     match case.kind % 4 {
